@@ -8,6 +8,26 @@ import json, os, subprocess, sys, shutil, time
 V = os.path.dirname(os.path.abspath(__file__))
 ids = sys.argv[1:] or sorted(d for d in os.listdir(os.path.join(V, 'seeded')) if os.path.isdir(os.path.join(V, 'seeded', d)))
 tier = os.environ.get('SEED_TIER', 'quick')
+# The checks regenerate lean/MpVerif/Gen/* (and rewrite evidence/*) from the tree under test.  Snapshot the clean-tree
+# state once and put it back after EVERY seed, so that what is on disk between runs (and what a `git commit -a` would
+# pick up) is never the state generated from a changed tree.
+SNAP = os.path.join(V, 'build', 'seedrun_snapshot.%d' % os.getpid())
+TRACK = ['lean/MpVerif/Gen', 'evidence']
+def snapshot():
+    shutil.rmtree(SNAP, ignore_errors=True)
+    for t in TRACK:
+        shutil.copytree(os.path.join(V, t), os.path.join(SNAP, t))
+def restore():
+    for t in TRACK:
+        src, dst = os.path.join(SNAP, t), os.path.join(V, t)
+        for f in os.listdir(dst):
+            if not os.path.exists(os.path.join(src, f)):
+                os.remove(os.path.join(dst, f))
+        for f in os.listdir(src):
+            a, b = os.path.join(src, f), os.path.join(dst, f)
+            if not os.path.exists(b) or open(a, 'rb').read() != open(b, 'rb').read():
+                shutil.copy2(a, b)
+snapshot()
 for sid in ids:
     d = os.path.join(V, 'seeded', sid)
     meta = json.load(open(os.path.join(d, 'meta.json')))
@@ -44,7 +64,7 @@ for sid in ids:
     subprocess.run(['git', '-C', '/repo', 'worktree', 'remove', '--force', wt], capture_output=True)
     shutil.rmtree(wt, ignore_errors=True)
     json.dump(res, open(os.path.join(d, 'result.json'), 'w'), indent=1)
+    restore()
     print(sid, 'caught' if res.get('caught') else 'MISSED', [(r_['check'], r_['violations'], r_['with_failing_input']) for r_ in res.get('runs', [])], res.get('apply_error', ''))
-# restore generated files / evidence for the clean tree
-if not os.environ.get('SEED_NO_RESTORE'):
-    subprocess.run(['git', 'checkout', '--', 'lean/MpVerif/Gen', 'evidence'], cwd=V)
+restore()
+shutil.rmtree(SNAP, ignore_errors=True)
